@@ -21,6 +21,44 @@ def sh(*cmd, cwd=None):
     return subprocess.run(cmd, cwd=cwd, stdout=subprocess.PIPE, stderr=subprocess.STDOUT).stdout.decode(errors="replace")
 
 
+def fix_driver():
+    """a union merge of lean/Driver.lean may duplicate the `allOps` definition or put an import after it: normalise"""
+    import re
+    p = os.path.join(VERIF, "lean", "Driver.lean")
+    s = open(p).read()
+    hdr = "def allOps : List (String × (List String → String)) :=\n  "
+    pat = re.compile(re.escape(hdr) + r"(.*)\n")
+    imports, rest = [], []
+    for l in s.split("\n"):
+        if l.startswith("import "):
+            if l not in imports:
+                imports.append(l)
+        else:
+            rest.append(l)
+    body = "\n".join(rest)
+    ops = []
+    for d in pat.findall(body):
+        for t in d.split(" ++ "):
+            if t.strip() and t.strip() not in ops:
+                ops.append(t.strip())
+    state = {"first": True}
+
+    def repl(m):
+        if state["first"]:
+            state["first"] = False
+            return hdr + " ++ ".join(ops) + "\n"
+        return ""
+    body = pat.sub(repl, body)
+    lines = body.split("\n")
+    lead = []
+    while lines and (lines[0] == "" or (lines[0].startswith("/-") and "-/" in lines[0]) or lines[0].startswith("--")):
+        lead.append(lines.pop(0))
+    out = re.sub(r"\n{3,}", "\n\n", "\n".join(lead + imports + [""] + lines))
+    if out != s:
+        open(p, "w").write(out)
+        print("normalised lean/Driver.lean")
+
+
 def main():
     src = os.path.abspath(sys.argv[1])
     dry = "--dry" in sys.argv
@@ -81,6 +119,8 @@ def main():
             print("CONFLICT", rel, "-> saved theirs as", rel + ".theirs")
             if not dry:
                 shutil.copy2(theirs, mine + ".theirs")
+    if not dry:
+        fix_driver()
     print("%d new, %d modified, %d conflicts" % (len(new), len(mod), len(conflicts)))
 
 
